@@ -491,9 +491,9 @@ func briefOf(t *core.Term) string {
 func c13Last(c *core.Ctx) {
 	h := [][]string{{"HEIGHT"}}
 	checkOrdered(c, "C13-last", []orderedSpec{
-		{"aggsender/db", "AggSenderSQLStorage", "GetLastSentCertificate", "CERTIFICATE_INFO", "DESC", nil, h},
-		{"aggsender/db", "AggSenderSQLStorage", "GetLastSentCertificateHeader", "CERTIFICATE_INFO", "DESC", nil, h},
-		{"aggsender/db", "AggSenderSQLStorage", "GetLastSentCertificateHeaderWithProofIfInError", "CERTIFICATE_INFO", "DESC", nil, h},
+		{"aggsender/db", "AggSenderSQLStorage", "GetLastSentCertificate", "CERTIFICATE_INFO", "DESC", nil, h, nil},
+		{"aggsender/db", "AggSenderSQLStorage", "GetLastSentCertificateHeader", "CERTIFICATE_INFO", "DESC", nil, h, nil},
+		{"aggsender/db", "AggSenderSQLStorage", "GetLastSentCertificateHeaderWithProofIfInError", "CERTIFICATE_INFO", "DESC", nil, h, nil},
 	})
 }
 
